@@ -12,12 +12,16 @@ import floatbase
 PROP = "C16"
 META = dict(
     technique="Coq proof of closed forms for the node models + coqc-evaluated model vs real Node::process correspondence (bit-exact f32)",
-    text="Machine-checked (Coq 8.16.1) closed forms for models of the dasp_graph nodes written after the source: Sum (per channel and sample, fold of `+` from 0.0 over the inputs that have the channel, in input order; silence without inputs), SumBuffers (every output = fold over all buffers of all inputs), Pass (first input's buffers onto the outputs, surplus outputs and the no-input case untouched), Delay (per channel the output stream over any number of calls = ring content then input stream; from C06's delay-line theorem), the dyn Signal node (successive frames de-interleaved, LEN frames per call, continuing across calls, min(CHANNELS, outputs) channels) and GraphNode (copy-in, inner processing, copy-out), for every input count, buffer count, buffer length and call count; no panic, no out-of-bounds unchecked access. The models are tied to the crate by running them inside coqc on the same cases as the real nodes under every wrapper type (Box, &mut, BoxedNode, BoxedNodeSend, dyn Fn, dyn FnMut, fn pointer, nested GraphNode over Graph and StableGraph) and comparing all output buffers bit for bit, together with the number of Signal::next calls made so far (signals are instrumented), after every call of histories in which the node's buffer list (NodeData::buffers) is also taken away, restored and resized between calls (zero-buffer calls included).",
-    note="Trusted: Coq kernel; the hand-written models (Buffer as list with a length hypothesis, float `+` as an abstract operation in the theorems and Flocq binary32 in the run); Processor::process on the inner star graph of a GraphNode is modelled directly (processing order is C09's subject); wrapper equivalence is established by correspondence only. Axioms: none except the Coq reals in the one theorem about real-number sums.",
+    text="Machine-checked (Coq 8.16.1) closed forms for models of the dasp_graph nodes written after the source: Sum (per channel and sample, fold of `+` from 0.0 over the inputs that have the channel, in input order; silence without inputs), SumBuffers (every output = fold over all buffers of all inputs), Pass (first input's buffers onto the outputs, surplus outputs and the no-input case untouched), Delay (per channel the output stream over any number of calls = ring content then input stream; from C06's delay-line theorem), the dyn Signal node (successive frames de-interleaved, LEN frames per call, continuing across calls, min(CHANNELS, outputs) channels) and GraphNode (copy-in, inner processing, copy-out), for every input count, buffer count, buffer length and call count; no panic, no out-of-bounds unchecked access. GraphNode is composed with the C09 traversal model: its inner graph is a C09 multigraph of (node, buffers) weights processed by the loops of dasp_graph::process with the inner node type's own (possibly panicking) Node::process; proved: on ANY inner multigraph the call returns and is copy-in, C09 process, copy-out (c16_graph_node_is_c09); with an acyclic inner upstream subgraph of any shape the inner graph ends as C09's functional evaluation and the output is the evaluated output node's buffers (c16_graph_node_functional); the same for a graph node sitting in an outer graph run by the C09 model, its inputs being the final buffers of the outer feeders (c16_graph_node_composed); graph nodes nest to any depth, and the built-in nodes are an instance. The models are tied to the crate by running them inside coqc on the same cases as the real nodes under every wrapper type (Box, &mut, BoxedNode, BoxedNodeSend, dyn Fn, dyn FnMut, fn pointer, nested GraphNode over Graph and StableGraph, with star-shaped and with arbitrary inner graphs: chains, diamonds, fan-in with parallel edges and self-loops, feedback cycles through a Delay, random DAGs and cyclic graphs, nodes that do not feed the output node, StableGraph with removed nodes, two-level nesting, missing input/output nodes) and comparing all output buffers bit for bit, together with the number of Signal::next calls made so far (signals are instrumented), after every call of histories in which the node's buffer list (NodeData::buffers) is also taken away, restored and resized between calls (zero-buffer calls included).",
+    note="Trusted: Coq kernel; the hand-written models (Buffer as list with a length hypothesis, float `+` as an abstract operation in the theorems and Flocq binary32 in the run); Processor::process on the inner graph of a GraphNode is the C09 model (petgraph's DfsPostOrder and adjacency order as modelled there; the star-shaped cases of the older executable model are kept beside the composed one); wrapper equivalence is established by correspondence only. Axioms: none except the Coq reals in the one theorem about real-number sums.",
     design="6/C16")
 HEADER = "From Dasp Require Import Graph.NodesRunU. Require Import Uint63."
 CHECK = "ucheck"
 RUN_VO = "theories/Graph/NodesRunU.vo"
+# the composed graph node (GraphNode over an arbitrary inner graph, processed by the C09 model)
+HEADER_G = "From Dasp Require Import Graph.NodesRunU Graph.NodesRunGU. Require Import Uint63."
+CHECK_G = "ugcheck"
+RUN_G_VO = "theories/Graph/NodesRunGU.vo"
 LEN = 64
 QNAN = 0x7FC00000
 WRAP_NAMES = {1: "Box", 2: "&mut", 3: "BoxedNode::new", 4: "BoxedNodeSend::new", 5: "dyn FnMut", 6: "dyn Fn", 7: "fn pointer"}
@@ -98,6 +102,13 @@ def spec_tokens(s):
             t += [len(fills)] + list(fills)
         t += [len(ids)] + list(ids) + [len(cfill)] + list(cfill) + [len(cw)] + list(cw) + spec_tokens(core)
         return t
+    if k == "cgraph":
+        _, gkind, nodes, edges, removed, ids, on = s
+        t = [7, gkind, len(nodes)]
+        for fills, wr, sp in nodes:
+            t += [len(fills)] + list(fills) + [len(wr)] + list(wr) + spec_tokens(sp)
+        t += [len(edges)] + [x for e in edges for x in e] + [len(removed)] + list(removed) + [len(ids)] + list(ids) + [on]
+        return t
     raise ValueError(k)
 
 
@@ -132,20 +143,42 @@ def spec_coq(s):
     raise ValueError(k)
 
 
+def spec_coq_g(s):
+    """term of type ucnode (Graph/NodesRunGU.v)"""
+    if s[0] == "cgraph":
+        _, gkind, nodes, edges, removed, ids, on = s
+        ns = ";".join(f"({spec_coq_g(sp)},{zl(fills)})" for fills, wr, sp in nodes)
+        es = ";".join(f"({a},{b})" for a, b in edges)
+        return f"(UCG [{ns}] [{es}] {zl(removed)} {zl(ids)} {on})"
+    return f"(ULeaf {spec_coq(s)})"
+
+
 def spec_kind(s):
+    if s[0] == "cgraph":
+        return "cgraph"
     return s[0] if s[0] != "graph" else "graph(" + spec_kind(s[6]) + ")"
 
 
 def spec_float(s):
+    if s[0] == "cgraph":
+        return any(spec_float(sp) for _, _, sp in s[2])
     return s[0] in ("sum", "sumb") or (s[0] == "graph" and spec_float(s[6]))
 
 
 def spec_stateful(s):
+    if s[0] == "cgraph":
+        return any(spec_stateful(sp) for _, _, sp in s[2])
     return s[0] in ("delay", "sig") or (s[0] == "graph" and spec_stateful(s[6]))
 
 
 def spec_wrappers(s):
+    if s[0] == "cgraph":
+        return [w for _, wr, sp in s[2] for w in list(wr) + spec_wrappers(sp)]
     return list(s[5]) + spec_wrappers(s[6]) if s[0] == "graph" else []
+
+
+def spec_has_cgraph(s):
+    return s[0] == "cgraph" or (s[0] == "graph" and spec_has_cgraph(s[6]))
 
 
 def build(item, ops=None):
@@ -158,7 +191,12 @@ def build(item, ops=None):
         secs.append([op, arg] + [v for inp in call for b in inp for v in b])
     it["line"] = " | ".join(" ".join(str(int(t)) for t in sec) for sec in secs)
     calls_coq = "[" + ";".join(f"(({op},{arg}),[" + ";".join(zll(inp) for inp in call) + "])" for op, arg, call in calls) + "]"
-    it["coq"] = u(f"UCase {spec_coq(it['spec'])} {zll(it['out0'])} {calls_coq}")
+    if it["spec"][0] == "cgraph":
+        it["coq"] = u(f"UGCase {spec_coq_g(it['spec'])} {zll(it['out0'])} {calls_coq}")
+        it["checker"] = "g"
+    else:
+        it["coq"] = u(f"UCase {spec_coq(it['spec'])} {zll(it['out0'])} {calls_coq}")
+        it["checker"] = "u"
     return it
 
 
@@ -177,8 +215,18 @@ def correspond(binpath, items, tag):
             except ValueError:
                 return outl, [], [("harness", f"unparsable observation line {o[:200]!r} for {it['line'][:200]!r}")]
         terms.append(f"({it['coq']}, {u(zll(obs))})")
-    bad, cerrs = F.coq_check_cases(tag, HEADER, CHECK, terms)
-    return outl, bad, cerrs
+    iu = [i for i, it in enumerate(items) if it.get("checker", "u") == "u"]
+    ig = [i for i, it in enumerate(items) if it.get("checker", "u") == "g"]
+    bad, cerrs = [], []
+    if iu:
+        b, e = F.coq_check_cases(tag, HEADER, CHECK, [terms[i] for i in iu])
+        bad += [iu[k] for k in b]
+        cerrs += e
+    if ig:
+        b, e = F.coq_check_cases(tag + "_g", HEADER_G, CHECK_G, [terms[i] for i in ig], per_file=40)
+        bad += [ig[k] for k in b]
+        cerrs += e
+    return outl, sorted(bad), cerrs
 
 
 # ---------------------------------------------------------------------------
@@ -342,6 +390,151 @@ def gen_cases(rng, tier):
     for kind, n in mix.items():
         for i in range(n):
             items.append(build(rand_case(rng.fork(f"{kind}{i}"), kind, tier)))
+    items += gen_cgraph_cases(rng, tier)
+    return items
+
+
+# ---------------------------------------------------------------------------
+# GraphNode over arbitrary inner graphs (the composed model: C09 traversal inside the node)
+
+CG_SHAPES = ["chain", "diamond", "fanin", "feedback", "dag", "cyclic", "nested", "unused", "removed"]
+
+
+def cg_leaf(r, kind, ncalls):
+    if kind == "sum":
+        return ("sum",)
+    if kind == "sumb":
+        return ("sumb",)
+    if kind == "pass":
+        return ("pass",)
+    if kind == "delay":
+        nr = r.range(0, 3)
+        return ("delay", r.below(3), [rand_ring(r, r.choice([1, 2, 3, 7, 63, 64, 65, 100])) for _ in range(nr)])
+    if kind == "sig":
+        ch = r.choice([1, 2, 2, 3])
+        nfr = ncalls * LEN if not r.chance(1, 6) else r.below(ncalls * LEN + 1)
+        return ("sig", ch, [[fb(float(i * 8 + c)) for c in range(ch)] for i in range(nfr)])
+    raise ValueError(kind)
+
+
+def cg_node(r, kind, ncalls, flavour, nb=None):
+    nb = r.choice([0, 1, 1, 2, 2, 3]) if nb is None else nb
+    fills = [rand_f32(r, flavour) for _ in range(nb)]
+    wr = rand_wrappers(r, 1) if r.chance(1, 3) else []
+    return (fills, wr, cg_leaf(r, kind, ncalls) if isinstance(kind, str) else kind)
+
+
+def rand_cgraph(r, shape, use_float, ncalls, depth=1):
+    """(spec, number of top-level inputs worth feeding)"""
+    flavour = "sum" if use_float else "any"
+    movers = ["pass", "pass", "delay", "delay", "sig"]
+    mixers = (["sum", "sum", "sumb"] if use_float else ["pass", "delay"])
+    gkind = r.below(2)
+    removed = []
+    nb = r.choice([None, None, 1, 2])       # None: every node picks its own buffer count (mismatches)
+    if shape == "chain":
+        L = r.range(2, 5)
+        kinds = ["pass"] + [r.choice(movers[:4]) for _ in range(L - 1)]
+        nodes = [cg_node(r, k, ncalls, flavour, nb) for k in kinds]
+        order = list(range(L))
+        edges = list(zip(order, order[1:]))
+        if r.chance(1, 3):
+            edges.reverse()                  # insertion order is irrelevant on a chain
+        ids, on = [0], L - 1
+    elif shape == "diamond":
+        kinds = ["pass", r.choice(movers[:4]), r.choice(movers[:4]), r.choice(mixers)]
+        nodes = [cg_node(r, k, ncalls, flavour, nb) for k in kinds]
+        edges = [(0, 1), (0, 2), (1, 3), (2, 3)]
+        if r.chance(1, 2):
+            edges = [(0, 2), (2, 3), (0, 1), (1, 3)]
+        ids, on = [0], 3
+    elif shape == "fanin":
+        k = r.range(1, 3)
+        nodes = [cg_node(r, "pass", ncalls, flavour, nb) for _ in range(k)] + [cg_node(r, r.choice(mixers), ncalls, flavour, nb)]
+        edges = []
+        for a in range(k):
+            edges.append((a, k))
+            if r.chance(1, 2):
+                edges.append((a, k))         # a parallel edge: the input is presented twice
+        if r.chance(1, 3):
+            edges.append((k, k))             # a self-loop: never presented
+        for i in range(len(edges) - 1, 0, -1):
+            j = r.below(i + 1)
+            edges[i], edges[j] = edges[j], edges[i]
+        ids, on = list(range(k)), k
+    elif shape == "feedback":
+        # in(0) -> mix(1) -> delay(2) -> mix(1): a cycle through a delay; out = mix or a node after it
+        nodes = [cg_node(r, "pass", ncalls, flavour, nb), cg_node(r, r.choice(mixers), ncalls, flavour, nb),
+                 cg_node(r, "delay", ncalls, flavour, nb)]
+        edges = [(0, 1), (1, 2), (2, 1)]
+        if r.chance(1, 2):
+            edges = [(2, 1), (0, 1), (1, 2)]
+        ids, on = [0], r.choice([1, 1, 2])
+        if r.chance(1, 3):
+            nodes.append(cg_node(r, "pass", ncalls, flavour, nb))
+            edges.append((1, 3))
+            on = 3
+    elif shape in ("dag", "cyclic", "unused", "removed"):
+        n = r.range(2, 6)
+        nodes = [cg_node(r, r.choice(movers + (mixers if use_float and i % 2 else [])), ncalls, flavour, nb) for i in range(n)]
+        edges = []
+        for _ in range(r.range(1, 2 * n)):
+            a, b = r.below(n), r.below(n)
+            if shape != "cyclic":
+                if a == b:
+                    continue
+                a, b = min(a, b), max(a, b)
+            edges.append((a, b))
+        ids = [r.below(n) for _ in range(r.range(0, 3))]
+        on = n - 1 if shape != "cyclic" else r.below(n)
+        if shape == "unused":                # nodes that do not feed the output node, one of them an input node
+            nodes.append(cg_node(r, r.choice(movers), ncalls, flavour, nb))
+            edges.append((on, n))
+            ids.append(n)
+        if shape == "removed":
+            gkind = 1
+            victims = [x for x in range(n) if x != on]
+            removed = [r.choice(victims)] if victims else []
+            ids = [x for x in ids if x not in removed] + ([removed[0]] if removed and r.chance(1, 8) else [])
+    elif shape == "nested":
+        inner, _ = rand_cgraph(r, r.choice(["chain", "diamond", "fanin", "feedback"]), use_float, ncalls, depth + 1)
+        nodes = [cg_node(r, "pass", ncalls, flavour, nb), cg_node(r, inner, ncalls, flavour, nb),
+                 cg_node(r, r.choice(mixers), ncalls, flavour, nb)]
+        edges = [(0, 1), (1, 2)] + ([(0, 2)] if r.chance(1, 2) else [])
+        ids, on = [0], 2
+    else:
+        raise ValueError(shape)
+    if r.chance(1, 25):
+        ids = ids + [len(nodes) + 1]         # a missing input node: the `.expect` panic (when an input is zipped with it)
+    if r.chance(1, 40):
+        on = len(nodes)                      # a missing output node
+    return ("cgraph", gkind, nodes, edges, removed, ids, on), len(ids)
+
+
+def cgraph_case(r, shape, use_float, tier):
+    ncalls = r.choice([1, 2, 2, 3]) if not use_float else r.choice([1, 1, 2])
+    spec, nids = rand_cgraph(r, shape, use_float, ncalls)
+    flavour = "sum" if use_float else "any"
+    ninputs = max(0, nids + r.choice([0, 0, 0, -1, 1]))
+    shape_in = [r.choice([0, 1, 1, 2]) if use_float else r.range(0, 3) for _ in range(ninputs)]
+    nout = r.choice([0, 1, 1, 2]) if use_float else r.choice([0, 1, 1, 2, 2, 3])
+    out0 = [rand_buf(r, flavour) for _ in range(nout)]
+    calls = [[0, 0, [[rand_buf(r, flavour) for _ in range(nbf)] for nbf in shape_in]] for _ in range(ncalls)]
+    if ncalls >= 2 and r.chance(1, 5):
+        c = calls[-1]
+        c[0], c[1] = r.choice([(2, 0), (1, r.range(0, 3))])
+    return dict(kind="cg:" + shape + (":f32" if use_float else ""), wrappers=rand_wrappers(r, 2) if r.chance(1, 2) else [],
+                spec=spec, out0=out0, shape=shape_in, ops=calls)
+
+
+def gen_cgraph_cases(rng, tier):
+    items = []
+    nz, nf = (48, 14) if tier == "quick" else (220, 50)
+    for shape in CG_SHAPES:
+        for i in range(nz):
+            items.append(build(cgraph_case(rng.fork(f"cg:{shape}:{i}"), shape, False, tier)))
+        for i in range(nf):
+            items.append(build(cgraph_case(rng.fork(f"cgf:{shape}:{i}"), shape, True, tier)))
     return items
 
 
@@ -349,6 +542,8 @@ def nontrivial(it):
     """a state- or shape-dependent branch is exercised: buffer counts that do not all match (zip truncation,
     missing channels, surplus outputs), at least two inputs (order of summation / choice of the input),
     or at least two consecutive calls of a stateful node (ring / signal position carried over)."""
+    if it["spec"][0] == "cgraph":
+        return len(it["spec"][2]) >= 2
     nout = len(it["out0"])
     mismatched = any(nb != nout for nb in it["shape"])
     if it["spec"][0] == "delay":
@@ -389,10 +584,16 @@ def shrink(it, binpath):
     return small
 
 
+def model_eval(it):
+    if it.get("checker") == "g":
+        return F.coq_eval("c16", HEADER_G, f"urun_gcase ({it['coq']})")
+    return F.coq_eval("c16", HEADER, f"urun_case ({it['coq']})")
+
+
 def main(rep, tier, seed):
     rng = F.Rng(seed)
     info = F.standard_proof_phase(rep, PROP, allowed_axioms=F.AX_REALS)
-    rok, rlog = F.coq_make(RUN_VO)   # the executable interface is not in the closure of props/C16.vo
+    rok, rlog = F.coq_make([RUN_VO, RUN_G_VO])   # the executable interfaces are not in the closure of props/C16.vo
     if not rok:
         rep.violation("model_build", {"kind": "the executable model does not compile", "target": RUN_VO, "log_tail": rlog[-4000:]}, no_input=True)
         return finish(rep, info, [], [], {}, {})
@@ -414,7 +615,7 @@ def main(rep, tier, seed):
     for idx in bad[:3]:
         small = shrink(items[idx], binpath)
         rc, out, _ = F.run_bin(binpath, [small["line"]])
-        _, model = F.coq_eval("c16", HEADER, f"urun_case ({small['coq']})")
+        _, model = model_eval(small)
         rep.violation(f"case{idx}", {
             "kind": "model/implementation disagreement: a dasp_graph node does not compute what the proved model computes",
             "node": spec_kind(small["spec"]), "wrappers": [WRAP_NAMES[w] for w in small["wrappers"]],
@@ -428,7 +629,7 @@ def main(rep, tier, seed):
 def finish(rep, info, items, outl, fbinfo, extra, bad=()):
     th = info.get("theorems", [])
     hist = {"node": {}, "wrapper": {}, "inputs": {}, "buffers_per_input": {}, "outputs": {}, "calls": {}, "delay_ring_len": {},
-            "signal_channels": {}, "buffer_list_ops": {}}
+            "signal_channels": {}, "buffer_list_ops": {}, "inner_graph_shape": {}, "inner_graph_container": {}}
 
     def bump(h, k):
         hist[h][str(k)] = hist[h].get(str(k), 0) + 1
@@ -453,6 +654,9 @@ def finish(rep, info, items, outl, fbinfo, extra, bad=()):
         if any(c[0] == 2 or (c[0] == 1 and c[1] == 0) for c in it["ops"]) or not it["out0"]:
             bump("buffer_list_ops", "cases_with_a_zero_buffer_call")
         s = it["spec"]
+        if s[0] == "cgraph":
+            bump("inner_graph_shape", it["kind"])
+            bump("inner_graph_container", "StableGraph" if s[1] else "Graph")
         while s[0] == "graph":
             s = s[6]
         if s[0] == "delay":
@@ -471,10 +675,10 @@ def finish(rep, info, items, outl, fbinfo, extra, bad=()):
         "checker_cmd": "make -f Makefile.coq props/C16.vo (coqc 8.16.1, full .vo) + Print Assumptions audit",
         "trusted_base": F.TRUSTED_COMMON + [
             "axioms: none, except c16_sum_real (the sum over Coq's reals: ClassicalDedekindReals / functional extensionality of the standard library)",
-            "modelled, not verified: Buffer as a list with a length hypothesis; f32 `+` abstract in the theorems, Flocq binary32 (validated against rustc by floatbase) in the run; Signal::next as a state-passing function; Processor::process on a GraphNode's inner graph abstract in the theorem and a star-shaped instance in the run; wrappers are the identity in the model (their equivalence is tested, not proved)"],
+            "modelled, not verified: Buffer as a list with a length hypothesis; f32 `+` abstract in the theorems, Flocq binary32 (validated against rustc by floatbase) in the run; Signal::next as a state-passing function; Processor::process on a GraphNode's inner graph = the C09 model of petgraph's DfsPostOrder/adjacency order (composed theorems and the `cg:` cases), abstract in c16_graph_node and a star-shaped instance in the older cases; wrappers are the identity in the model (their equivalence is tested, not proved)"],
         "theorems": th, "axioms_reported": info.get("axioms", []),
         "evaluations": len(outl), "distinct_nontrivial": nontriv,
-        "rule": "non-trivial = buffer counts that do not all match the output count (zip truncation / missing channel / surplus output), or >= 2 inputs, or >= 2 consecutive calls of a stateful node (delay, signal, graph around them), or the node's buffer list is changed between calls (taken away and restored, resized)",
+        "rule": "non-trivial = buffer counts that do not all match the output count (zip truncation / missing channel / surplus output), or >= 2 inputs, or >= 2 consecutive calls of a stateful node (delay, signal, graph around them), or the node's buffer list is changed between calls (taken away and restored, resized), or a GraphNode over an inner graph of >= 2 nodes processed by the C09 traversal (kinds cg:*)",
         "samples": samples, "input_distribution": dist, "disagreements": len(bad),
         "explanation": "theorems: closed forms of every node's process for all input/buffer/call counts; tie: the model's executable definitions run by coqc on the same cases as the real nodes (all wrapper types), every output buffer after every call compared bit for bit (f32 sums in the code's order)",
     }
@@ -488,10 +692,10 @@ def replay(path):
     c = j["case"]
     c["spec"] = tuplify(c["spec"])
     it = build(c)
-    F.coq_make(RUN_VO)
+    F.coq_make([RUN_VO, RUN_G_VO])
     ok, blog, binpath = F.harness_build("c16")
     rc, out, _ = F.run_bin(binpath, [it["line"]])
-    _, model = F.coq_eval("c16", HEADER, f"urun_case ({it['coq']})")
+    _, model = model_eval(it)
     print("case:", it["line"][:2000])
     print("implementation:", [o[:3000] for o in out])
     print("model:", model[-3000:])
@@ -504,6 +708,8 @@ def tuplify(s):
     """specs come back from JSON as nested lists"""
     if s[0] == "graph":
         return ("graph", s[1], s[2], s[3], s[4], s[5], tuplify(s[6]))
+    if s[0] == "cgraph":
+        return ("cgraph", s[1], [(n[0], n[1], tuplify(n[2])) for n in s[2]], [tuple(e) for e in s[3]], s[4], s[5], s[6])
     if s[0] == "delay":
         return ("delay", s[1], [tuple(x) for x in s[2]])
     return tuple(s)
